@@ -6,7 +6,10 @@ package main
 import (
 	"context"
 	"fmt"
+	"io/ioutil"
 	"math"
+	"os"
+	"path/filepath"
 	"regexp"
 	"sort"
 	"strconv"
@@ -33,7 +36,8 @@ type Op struct {
 	Valid  bool      `json:"v,omitempty"`
 	Limit  int64     `json:"l,omitempty"`
 	Offset int64     `json:"o,omitempty"`
-	Cfg    []CfgPipe `json:"cfg,omitempty"` // restartcfg: PipesConfig.EnsureAtStart of the next start
+	Cfg    []CfgPipe `json:"cfg,omitempty"`    // restartcfg: PipesConfig.EnsureAtStart of the next start
+	Legacy string    `json:"legacy,omitempty"` // restart: what lies in the pipes folder beside / instead of registry.dat (see legacySurgery)
 }
 
 type Replay struct {
@@ -117,7 +121,7 @@ func genOps(r *Rng, n int) []Op {
 			ops = append(ops, Op{Kind: "describe", Name: name})
 		default:
 			if r.Chance(1, 2) {
-				ops = append(ops, Op{Kind: "restart"})
+				ops = append(ops, Op{Kind: "restart", Legacy: r.PickStr("", "", "stale", "progress", "only")})
 				break
 			}
 			// a start with configured pipes: some as stored, some with other conditions, some new, rarely one that does not compile
@@ -337,6 +341,9 @@ func runHist(ops []Op) (*hist, error) {
 			}
 		case "restart":
 			srv.Stop()
+			if msg := legacySurgery(dir, op.Legacy); msg != "" {
+				return nil, fmt.Errorf("legacy surgery: %s", msg)
+			}
 			srv, err = StartServer(ServerOpts{Dir: dir})
 			if err != nil {
 				h.fail("restart-failed", err.Error())
@@ -386,6 +393,43 @@ func runHist(ops []Op) (*hist, error) {
 		}
 	}
 	return h, nil
+}
+
+// legacySurgery changes the pipes folder of a stopped server the way other versions and other pipes leave it:
+//
+//	stale    - a pipes.dat of the previous layout with an OLD list lies beside registry.dat: registry.dat is what counts
+//	progress - pipes.dat holds the progress map of a pipe named s (its position file has that name): not the registry
+//	only     - the folder comes from the previous layout: the definitions are in pipes.dat, there is no registry.dat:
+//	           they are read from there (and moved)
+//
+// In every mode the registry after the start is what it was at the stop.
+func legacySurgery(dir, mode string) string {
+	if mode == "" {
+		return ""
+	}
+	pd := filepath.Join(dir, "pipes")
+	reg := filepath.Join(pd, "registry.dat")
+	old := filepath.Join(pd, "pipes.dat")
+	switch mode {
+	case "stale":
+		if err := ioutil.WriteFile(old, []byte(`[{"Name":"ghost","TagsCond":"","FltCond":""}]`), 0640); err != nil {
+			return err.Error()
+		}
+	case "progress":
+		if err := ioutil.WriteFile(old, []byte(`{}`), 0640); err != nil {
+			return err.Error()
+		}
+	case "only":
+		data, err := ioutil.ReadFile(reg)
+		if err != nil {
+			return "" // nothing was ever saved: nothing to move
+		}
+		if err := ioutil.WriteFile(old, data, 0640); err != nil {
+			return err.Error()
+		}
+		os.Remove(reg)
+	}
+	return ""
 }
 
 func field(out, key string) string {
@@ -460,7 +504,11 @@ func corpus() []Replay {
 		en("name=App1", "msg contains \"err\""), en("name=app1", "msg contains \"ERR\""), en("NAME=app1", "msg contains \"err\""),
 		en("name=app1", "msg CONTAINS \"err\""), en("name=app1", "msg contains \"err\""), {Kind: "describe", Name: "pa"},
 		{Kind: "ensurerpc", Name: "pa", From: "name=app1", Where: "MSG contains \"err\"", Valid: true}, {Kind: "describe", Name: "pa"}}
-	return []Replay{{Kind: "hist", Ops: h1}, {Kind: "hist", Ops: h2}, {Kind: "hist", Ops: h3}, {Kind: "erace", K: 2}, {Kind: "erace", K: 3}, {Kind: "erace", K: 8}}
+	// what other versions and a pipe named s leave in the pipes folder
+	h4 := []Op{mk("pa"), mk("s"), {Kind: "restart", Legacy: "stale"}, list(0, 0), mk("pb"), {Kind: "delete", Name: "pa"},
+		{Kind: "restart", Legacy: "stale"}, list(0, 0), {Kind: "restart", Legacy: "progress"}, list(0, 0), {Kind: "describe", Name: "s"},
+		{Kind: "restart", Legacy: "only"}, list(0, 0), mk("zz"), {Kind: "restart"}, list(0, 0), {Kind: "restart", Legacy: "only"}, {Kind: "restart", Legacy: "stale"}, list(0, 0)}
+	return []Replay{{Kind: "hist", Ops: h1}, {Kind: "hist", Ops: h2}, {Kind: "hist", Ops: h3}, {Kind: "hist", Ops: h4}, {Kind: "erace", K: 2}, {Kind: "erace", K: 3}, {Kind: "erace", K: 8}}
 }
 
 // runEnsureRace: k goroutines ensure the same new name with the same definition concurrently on the real service
